@@ -1,7 +1,9 @@
 #!/bin/sh
 # thorough tier of every registered check (verdict on /repo + checker self-test on every recorded variant), one status line each
+# usage: thorough.sh [Cxx ...]   (default: all 18)
 cd "$(dirname "$0")/.."
-for c in C01 C02 C03 C04 C05 C06 C07 C08 C09 C10 C11 C12 C13 C15 C16 C17 C18 C19; do
+[ $# -gt 0 ] || set -- C01 C02 C03 C04 C05 C06 C07 C08 C09 C10 C11 C12 C13 C15 C16 C17 C18 C19
+for c in "$@"; do
   /venv/bin/python sa/run.py $c --tier thorough > thor.$c.out 2>&1; rc=$?
   echo "$c rc=$rc $(grep -m1 "self-test" thor.$c.out)"
   grep -i "unexpected" thor.$c.out | grep -v "0 unexpected" | head -20
